@@ -32,7 +32,9 @@ RULE = ("static: one obligation per estimator class (frame analysis) and per pub
         "grid_coordinates, block_split, rolling_window, line_coordinates, block cross-validators, BlockReduce/BlockMean, inside, "
         "scatter_points, make_xarray_grid) valid arguments with exactly one injected inconsistency (one coordinate / data / weight "
         "shape, weight or name count, both or neither of shape and spacing, inverted or wrong-length region, 3 spacing values) and the "
-        "valid controls (incl. raveled 1-D weights for 2-D data), 1-D and 2-D shapes; dynamic: every estimator class x 1..4 fits on data sets of different sizes compared with a "
+        "valid controls (incl. raveled 1-D weights for 2-D data), 1-D and 2-D shapes; systematically (harness/c20_positions.py) every "
+        "callable taking coordinate / data / weight tuples x 2-4 coordinate arrays x 1-3 data components x with/without weights x ONE array in "
+        "ONE position (every coordinate incl. extras, every data and weight component) transposed / raveled / longer / shorter / scalar; dynamic: every estimator class x 1..4 fits on data sets of different sizes compared with a "
         "fresh estimator, refits on a data set with the SAME size and bounding box as the previous one (permuted order / same extreme points, "
         "other interior), compared bit for bit, get_params(deep=True) compared by value before/after every fit / predict / grid / scatter / "
         "profile / score / filter (tiny and normal data sets), refits whose first data set is tiny (3-4 points: fewer than k, forces, "
@@ -57,7 +59,7 @@ ASSUMPTIONS = [
     "shape) resp. with tolerance 2^-40 x max(1, |value|) and enter Coq as booleans (mk_verdict true <holds>): coqc only tallies them",
     "static obligations enter the case list as mk_verdict <compiled> true: a failed obligation is a broken tie with no failing input",
 ]
-TRUSTED = ["harness/c20.py, harness/translate_frames.py, harness/translate_effects.py (ast translators: the classification tables of "
+TRUSTED = ["harness/c20.py, harness/c20_positions.py (incl. the frozen table of what the unchanged code rejects for callables without an explicit shape check), harness/translate_frames.py, harness/translate_effects.py (ast translators: the classification tables of "
            "library calls, the call expansion with callee summaries, SSA versioning)"]
 
 _extra = {}
@@ -1157,6 +1159,8 @@ def generate(tier, seed):
     rnd = random.Random(seed)
     cases = _static_cases()
     cases += _malformed(vd, rnd, tier)
+    from . import c20_positions
+    cases += c20_positions.generate(vd, rnd, tier, _extra)
     cases += _history(vd, rnd, tier)
     cases += _history_same_bbox(vd, rnd, tier)
     cases += _history_params(vd, rnd, tier)
@@ -1171,6 +1175,10 @@ def search(disagreeing, tier, seed):
     out = []
     for k in (1, 2):
         rnd = random.Random(seed + k)
+        if k == 1:
+            from . import c20_positions
+            out += c20_positions.generate(vd, rnd, "thorough", {})
+            out += _malformed(vd, rnd, "thorough")
         out += _history_same_bbox(vd, rnd, "thorough")
         out += _history_params(vd, rnd, "thorough")
         out += _history(vd, rnd, "thorough")
